@@ -19,7 +19,9 @@ from matplotlib.ticker import EngFormatter, Formatter
 from emsarray.conventions import Convention, Index
 from emsarray.plot import _requires_plot, make_plot_title
 from emsarray.types import DataArrayOrName, Landmark
-from emsarray.utils import move_dimensions_to_end, name_to_data_array
+from emsarray.utils import (
+    get_bounds_name, move_dimensions_to_end, name_to_data_array
+)
 
 # Useful for calculating distances in a AzimuthalEquidistant projection
 # centred on some point:
@@ -147,7 +149,7 @@ class Transect:
 
         depth_bounds = None
         try:
-            depth_bounds = self.convention.dataset[depth.attrs['bounds']].values
+            depth_bounds = self.convention.dataset[get_bounds_name(depth)].values
         except KeyError:
             # Make up some depth bounds data from the depth values
             # The top/bottom values will be the first/last depth values,
